@@ -44,12 +44,17 @@ Record QInv (s : state) : Prop := {
   (** a running context is awaiting its next batch or the expiration of the current one *)
   s_run : forall id c, get id (ctxs s) = Some c -> c_state c = CRunning ->
       get id (nmark s) <> None \/ get id (xmark s) <> None;
-  s_wf : forall id c, get id (ctxs s) = Some c -> wf c
+  s_wf : forall id c, get id (ctxs s) = Some c -> wf c;
+  s_kc : NoDup (keys (ctxs s));
+  s_kn : NoDup (keys (nmark s));
+  s_kx : NoDup (keys (xmark s))
 }.
+
+#[local] Hint Resolve keys_set_NoDup keys_del_NoDup : core.
 
 Lemma QInv_init h0 : QInv (init h0).
 Proof.
-  constructor; simpl; try discriminate; try (intros ? [H|H]; congruence).
+  constructor; simpl; try discriminate; try (intros ? [H|H]; congruence); try apply NoDup_nil.
   - constructor; [constructor| |intros ? ? []]. intros e id. simpl. split; [intros []|discriminate].
   - constructor; [constructor| |intros ? ? []]. intros e id. simpl. split; [intros []|discriminate].
 Qed.
@@ -67,7 +72,7 @@ Lemma upd_set_inv s id c' :
   QInv s -> (c_state c' = CRunning -> get id (nmark s) <> None \/ get id (xmark s) <> None) -> wf c' ->
   QInv (upd s (set id c' (ctxs s))).
 Proof.
-  intros [Qn Qx Qe Qc Qr Qw] Hrun Hwf. constructor; simpl; auto.
+  intros [Qn Qx Qe Qc Qr Qw Kc Kn Kx] Hrun Hwf. constructor; simpl; auto.
   - intros id' H. rewrite get_set_cases. case_id id' id; [discriminate|auto].
   - intros id' c. rewrite get_set_cases. case_id id' id; [|apply Qr]. intros Hc. inversion Hc; subst. exact Hrun.
   - intros id' c. rewrite get_set_cases. case_id id' id; [|apply Qw]. intros Hc. inversion Hc; subst. exact Hwf.
@@ -78,20 +83,23 @@ Lemma enter_new_inv s id c' h :
   QInv s -> get id (nmark s) = None -> get id (xmark s) = None -> wf c' -> height s <= h ->
   QInv (add_new (upd s (set id c' (ctxs s))) id h).
 Proof.
-  intros [Qn Qx Qe Qc Qr Qw] Hn Hx Hwf Hle. constructor; simpl.
+  intros [Qn Qx Qe Qc Qr Qw Kc Kn Kx] Hn Hx Hwf Hle. constructor; simpl.
   - apply QOK_enq; assumption.
   - exact Qx.
   - intros id' e. rewrite get_set_cases. case_id id' id; [intros _; exact Hx|apply Qe].
   - intros id'. rewrite !get_set_cases. case_id id' id; [discriminate|apply Qc].
   - intros id' c. rewrite !get_set_cases. case_id id' id; [intros _ _; left; discriminate|apply Qr].
   - intros id' c. rewrite get_set_cases. case_id id' id; [|apply Qw]. intros Hc. inversion Hc; subst. exact Hwf.
+  - auto.
+  - auto.
+  - auto.
 Qed.
 
 (** C. the new batch is started (or skipped): from the new-batch queue to the expiration queue *)
 Lemma move_new_to_exp_inv s id h h' :
   QInv s -> get id (nmark s) = Some h -> height s <= h' -> QInv (del_new (add_exp s id h') id h).
 Proof.
-  intros Q Hn Hle. pose proof (s_excl s Q _ _ Hn) as Hx. destruct Q as [Qn Qx Qe Qc Qr Qw].
+  intros Q Hn Hle. pose proof (s_excl s Q _ _ Hn) as Hx. destruct Q as [Qn Qx Qe Qc Qr Qw Kc Kn Kx].
   constructor; simpl.
   - apply QOK_deq; assumption.
   - apply QOK_enq; assumption.
@@ -100,6 +108,9 @@ Proof.
     intros _. apply Qc. left. congruence.
   - intros id' c. rewrite get_del_cases, get_set_cases. case_id id' id; [intros _ _; right; discriminate|apply Qr].
   - exact Qw.
+  - auto.
+  - auto.
+  - auto.
 Qed.
 
 (** D. a new-batch entry of a context that is not running is dropped *)
@@ -107,7 +118,7 @@ Lemma del_new_inv s id h :
   QInv s -> get id (nmark s) = Some h -> (forall c, get id (ctxs s) = Some c -> c_state c <> CRunning) ->
   QInv (del_new s id h).
 Proof.
-  intros Q Hn Hnr. destruct Q as [Qn Qx Qe Qc Qr Qw]. constructor; simpl; auto.
+  intros Q Hn Hnr. destruct Q as [Qn Qx Qe Qc Qr Qw Kc Kn Kx]. constructor; simpl; auto.
   - apply QOK_deq; assumption.
   - intros id' e. rewrite get_del_cases. case_id id' id; [discriminate|apply Qe].
   - intros id'. rewrite get_del_cases. case_id id' id; [|apply Qc]. intros [H|H]; [congruence|]. apply Qc. right. exact H.
@@ -118,7 +129,7 @@ Qed.
 Lemma move_exp_to_new_inv s id h h' :
   QInv s -> get id (xmark s) = Some h -> height s <= h' -> QInv (add_new (del_exp s id h) id h').
 Proof.
-  intros Q Hx Hle. pose proof (excl' s Q _ _ Hx) as Hn. destruct Q as [Qn Qx Qe Qc Qr Qw].
+  intros Q Hx Hle. pose proof (excl' s Q _ _ Hx) as Hn. destruct Q as [Qn Qx Qe Qc Qr Qw Kc Kn Kx].
   constructor; simpl.
   - apply QOK_enq; assumption.
   - apply QOK_deq; assumption.
@@ -127,6 +138,9 @@ Proof.
     intros _. apply Qc. right. congruence.
   - intros id' c. rewrite get_del_cases, get_set_cases. case_id id' id; [intros _ _; left; discriminate|apply Qr].
   - exact Qw.
+  - auto.
+  - auto.
+  - auto.
 Qed.
 
 (** F. an expired batch of a context that is not running *)
@@ -134,7 +148,7 @@ Lemma del_exp_inv s id h :
   QInv s -> get id (xmark s) = Some h -> (forall c, get id (ctxs s) = Some c -> c_state c <> CRunning) ->
   QInv (del_exp s id h).
 Proof.
-  intros Q Hx Hnr. destruct Q as [Qn Qx Qe Qc Qr Qw]. constructor; simpl; auto.
+  intros Q Hx Hnr. destruct Q as [Qn Qx Qe Qc Qr Qw Kc Kn Kx]. constructor; simpl; auto.
   - apply QOK_deq; assumption.
   - intros id' e Hn. rewrite get_del_cases. case_id id' id; [reflexivity|eapply Qe; eauto].
   - intros id'. rewrite get_del_cases. case_id id' id; [|apply Qc]. intros [H|H]; [|congruence]. apply Qc. left. exact H.
@@ -145,7 +159,7 @@ Qed.
 Lemma del_exp_ctx_inv s id h :
   QInv s -> get id (xmark s) = Some h -> QInv (upd (del_exp s id h) (del id (ctxs s))).
 Proof.
-  intros Q Hx. pose proof (excl' s Q _ _ Hx) as Hn. destruct Q as [Qn Qx Qe Qc Qr Qw].
+  intros Q Hx. pose proof (excl' s Q _ _ Hx) as Hn. destruct Q as [Qn Qx Qe Qc Qr Qw Kc Kn Kx].
   constructor; simpl; auto.
   - apply QOK_deq; assumption.
   - intros id' e Hn'. rewrite get_del_cases. case_id id' id; [reflexivity|eapply Qe; eauto].
@@ -369,7 +383,7 @@ Proof.
   { apply NoDup_due_ids. exact (qk_nodup _ _ _ (s_new s1 Q1)). }
   { intros id Hin. apply due_ids_in. exact Hin. }
   set (s2 := fold_left (newbatch_one res) (map snd (due (height s1) (nq s1))) s1) in *.
-  destruct Q2 as [[Nn Nm Nf] [Xn Xm Xf] Qe Qc Qr Qw].
+  destruct Q2 as [[Nn Nm Nf] [Xn Xm Xf] Qe Qc Qr Qw Kc Kn Kx].
   constructor; simpl; auto.
   - constructor; [exact Nn|exact Nm|]. intros e id Hin. pose proof (Nf _ _ Hin) as Hle. rewrite Hh2, Hh1 in Hle.
     assert (e <> height s); [|lia]. intros ->. apply Hn2 in Hin. destruct Hin as [Hin Hno]. apply Hno. simpl.
